@@ -23,7 +23,7 @@ use cat::{core_is_expr, render_entry, site_literal, BlobD, Decls, EnumD, FTy, Ki
 pub struct C05;
 pub const CHECK: C05 = C05;
 pub fn plan(t: Tier) -> Plan {
-    let mut p = Plan::new(t.pick(4_000, 80_000), t.pick(3000, 4200));
+    let mut p = Plan::new(t.pick(16_000, 200_000), t.pick(3000, 4200));
     // the structural shrinker does the real work; keep proptest's tape shrinking short
     p.max_shrink_iters = 60;
     p
